@@ -109,6 +109,8 @@ pub enum MapOp {
     Defaults,
     /// self-checking scenarios on other element shapes (paddings, unsized borrowed forms)
     Shapes,
+    /// generic differential sweeps over element shapes (`sweep.rs`): families, seed
+    Sweep(String, u64),
     /// clone of a container of plain (destructor-free, counting-`Clone`) elements built from the list
     ClonePlain(Vec<(u16, u16)>),
     /// serde round trip of a container of `k` zero-sized elements (at most one is stored)
@@ -369,6 +371,7 @@ fn map_op(a: &[&str]) -> Option<MapOp> {
         ["capacity"] => MapOp::Capacity,
         ["defaults"] => MapOp::Defaults,
         ["shapes"] => MapOp::Shapes,
+        ["sweep", fam, seed] => MapOp::Sweep(fam.to_string(), seed.parse().ok()?),
         ["clone_plain", xs] => {
             let v: Option<Vec<(u16, u16)>> = list(xs)?.into_iter().map(|it| {
                 let (a, b) = it.split_once('=')?;
